@@ -498,3 +498,131 @@ theorem rayBnds_move : ∀ (x r : List K) (bnds : List (Bnd K)) (t : K), 0 ≤ t
 
 end Cert
 end Rooc
+
+/-! ## Mixed-integer problems: the enumeration of the integer box covers every feasible point -/
+namespace Rooc
+namespace Cert
+variable {K : Type} [Field K] [LinearOrder K] [IsStrictOrderedRing K] [FloorRing K]
+
+/-- `x` satisfies the mixed-integer problem EXACTLY (rows, bounds, integrality, 0/1). -/
+def ProbFeasible (p : Prob K) (x : List K) : Prop := FeasibleWithin p x 0
+
+theorem mem_intRange {lo hi n : Int} (h1 : lo ≤ n) (h2 : n ≤ hi) : n ∈ intRange lo hi := by
+  unfold intRange
+  simp only [List.mem_map, List.mem_range]
+  refine ⟨(n - lo).toNat, ?_, ?_⟩
+  · omega
+  · simp only [Int.ofNat_eq_natCast]; omega
+
+theorem rowSatTol_zero {x : List K} {r : Row K} (h : RowSatTol 0 x r) : RowSat x r := by
+  unfold RowSatTol at h
+  unfold RowSat
+  cases hrel : r.rel <;> simp [hrel] at h ⊢
+  · exact h
+  · exact h
+  · exact sub_eq_zero.mp h
+
+/-- every exactly feasible assignment of the domains lies in one leaf of the enumeration. -/
+theorem leaves_cover : ∀ (x : List K) (ds : List (Dom K)), DomsSatTol 0 x ds →
+    ∃ leaf ∈ leaves ds, BndsSat x (fixBnds (ds.map Dom.bnd) leaf)
+  | [], [], _ => ⟨[], by simp [leaves], by simp [fixBnds, BndsSat]⟩
+  | x :: xs, d :: ds, h => by
+    obtain ⟨leaf, hleaf, hb⟩ := leaves_cover xs ds h.2
+    cases d with
+    | cont lo hi =>
+      refine ⟨none :: leaf, by simp only [leaves, List.mem_map]; exact ⟨leaf, hleaf, rfl⟩, ?_⟩
+      simp only [List.map_cons, fixBnds, fixBnd, BndsSat]
+      refine ⟨⟨?_, ?_⟩, hb⟩
+      · intro l hl; have := h.1.1 l hl; simpa [Dom.bnd] using this
+      · intro u hu; have := h.1.2 u hu; simpa [Dom.bnd] using this
+    | int lo hi =>
+      obtain ⟨n, hn, h1, h2⟩ := h.1
+      have hx : x = (n : K) := by
+        have := abs_nonpos_iff.mp hn
+        exact sub_eq_zero.mp this
+      refine ⟨some n :: leaf, ?_, ?_⟩
+      · simp only [leaves, List.mem_flatMap, List.mem_map]
+        exact ⟨n, mem_intRange h1 h2, leaf, hleaf, rfl⟩
+      · simp only [List.map_cons, fixBnds, fixBnd, BndsSat]
+        refine ⟨⟨?_, ?_⟩, hb⟩
+        · intro l hl; simp at hl; rw [← hl, hx]
+        · intro u hu; simp at hu; rw [← hu, hx]
+    | bool =>
+      have hx : x = ((0 : Int) : K) ∨ x = ((1 : Int) : K) := by
+        rcases h.1 with h0 | h1
+        · left; simpa using abs_nonpos_iff.mp h0
+        · right; have := abs_nonpos_iff.mp h1; simpa using sub_eq_zero.mp this
+      rcases hx with hx | hx
+      · refine ⟨some 0 :: leaf, ?_, ?_⟩
+        · simp only [leaves, List.mem_flatMap, List.mem_map]
+          exact ⟨0, mem_intRange (by decide) (by decide), leaf, hleaf, rfl⟩
+        · simp only [List.map_cons, fixBnds, fixBnd, BndsSat]
+          refine ⟨⟨?_, ?_⟩, hb⟩
+          · intro l hl; simp at hl; rw [← hl, hx]; simp
+          · intro u hu; simp at hu; rw [← hu, hx]; simp
+      · refine ⟨some 1 :: leaf, ?_, ?_⟩
+        · simp only [leaves, List.mem_flatMap, List.mem_map]
+          exact ⟨1, mem_intRange (by decide) (by decide), leaf, hleaf, rfl⟩
+        · simp only [List.map_cons, fixBnds, fixBnd, BndsSat]
+          refine ⟨⟨?_, ?_⟩, hb⟩
+          · intro l hl; simp at hl; rw [← hl, hx]; simp
+          · intro u hu; simp at hu; rw [← hu, hx]; simp
+  | [], _ :: _, h => by simp [DomsSatTol] at h
+  | _ :: _, [], h => by simp [DomsSatTol] at h
+
+/-- a feasible point of the mixed-integer problem is a feasible point of the LP of one leaf. -/
+theorem probFeasible_leaf {p : Prob K} {x : List K} (h : ProbFeasible p x) :
+    ∃ leaf ∈ leaves p.doms, LpFeasible (p.relax.fix leaf) x := by
+  obtain ⟨leaf, hleaf, hb⟩ := leaves_cover x p.doms h.2
+  exact ⟨leaf, hleaf, fun r hr => ⟨(h.1 r hr).1, rowSatTol_zero (h.1 r hr).2⟩, hb⟩
+
+theorem checkLeaves_mem {lp : LP K} {target : K} : ∀ (ls : List (List (Option Int))) (cs : List (LeafCert K)),
+    checkLeaves lp target ls cs = true → ∀ l ∈ ls, ∃ c, checkLeaf lp target l c = true
+  | [], [], _ => by simp
+  | l :: ls, c :: cs, h => by
+    simp only [checkLeaves, Bool.and_eq_true] at h
+    intro l' hl'
+    rcases List.mem_cons.mp hl' with rfl | hm
+    · exact ⟨c, h.1⟩
+    · exact checkLeaves_mem ls cs h.2 l' hm
+  | [], _ :: _, h => by simp [checkLeaves] at h
+  | _ :: _, [], h => by simp [checkLeaves] at h
+
+/-- moving along a ray of the relaxation keeps every domain (integer variables are bounded, so the ray is 0 there). -/
+theorem rayBnds_move_doms : ∀ (x r : List K) (ds : List (Dom K)) (t : K), 0 ≤ t →
+    rayBnds r (ds.map Dom.bnd) = true → DomsSatTol 0 x ds → DomsSatTol 0 (move x r t) ds
+  | [], [], [], _, _, _, _ => by simp [move, DomsSatTol]
+  | x :: xs, r :: rs, d :: ds, t, ht, hr, hx => by
+    simp only [List.map_cons, rayBnds, Bool.and_eq_true] at hr
+    obtain ⟨⟨hlo, hhi⟩, hrest⟩ := hr
+    have ih := rayBnds_move_doms xs rs ds t ht hrest hx.2
+    simp only [move, List.zipWith_cons_cons] at ih ⊢
+    refine ⟨?_, ih⟩
+    cases d with
+    | cont lo hi =>
+      constructor
+      · intro l hl
+        have h1 := hx.1.1 l hl
+        simp [Dom.bnd, hl] at hlo
+        nlinarith
+      · intro u hu
+        have h1 := hx.1.2 u hu
+        simp [Dom.bnd, hu] at hhi
+        nlinarith
+    | int lo hi =>
+      simp [Dom.bnd] at hlo hhi
+      have hr0 : r = 0 := le_antisymm hhi hlo
+      have := hx.1
+      simpa [hr0, DomSatTol] using this
+    | bool =>
+      simp [Dom.bnd] at hlo hhi
+      have hr0 : r = 0 := le_antisymm hhi hlo
+      have := hx.1
+      simpa [hr0, DomSatTol] using this
+  | [], _ :: _, ds, _, _, hr, hx => by cases ds <;> simp_all [DomsSatTol, rayBnds]
+  | _ :: _, [], ds, _, _, hr, hx => by cases ds <;> simp_all [DomsSatTol, rayBnds]
+  | [], [], _ :: _, _, _, hr, _ => by simp [rayBnds] at hr
+  | _ :: _, _ :: _, [], _, _, hr, _ => by simp [rayBnds] at hr
+
+end Cert
+end Rooc
